@@ -189,7 +189,14 @@ class EvDomain(Domain):
         if q in ('std::mutex::lock', 'std::mutex::unlock', 'std::unique_lock::lock', 'std::unique_lock::unlock'):
             self.ev(st, Ev('mutex.' + base, n, name=q, obj=on), fr); return None
         if q.startswith('std::function') and n.op == '()':
+            held_ = ex.read(ex.loc_of(obj, st, fr), st, obj) if (obj is not None and obj.k in ('ref', 'member') and ex.loc_of(obj, st, fr) is not None) else None
+            if isinstance(held_, Closure): return Sym('cb-result')          # its body has been run (sync_closures)
             self.ev(st, Ev('opaque', n, name=q, obj=on, args=vals), fr); return Sym('cb-result')
+        if q.startswith('std::function') and base == 'operator=' and obj is not None and obj.k in ('ref', 'member') and vals:
+            loc_ = ex.loc_of(obj, st, fr)
+            if loc_ is not None:
+                ex.write(loc_, vals[0] if isinstance(vals[0], Closure) else (Lin.const(0) if (isinstance(vals[0], Lin) and vals[0].is_const()) else Sym(f'fn@{n.id}')), st, n)
+                return Ref(loc_)
         if q == 'std::swap' and len(args) == 2 and args[0] is not None and args[1] is not None:
             la = ex.loc_of(args[0], st, fr); lb = ex.loc_of(args[1], st, fr)
             e = self.ev(st, Ev('call', n, name=q, obj=None, args=vals), fr)
@@ -313,6 +320,13 @@ class EvDomain(Domain):
                 if self.container_empty(X) is True: return []
                 self.ev(st, Ev('anyof', n, name=qn, obj=X, val=clo), fr)
                 return [(clo, [Sym(X + '.front')])]
+        if q.startswith('std::function') and n.ck == 'op' and n.op == '()' and n.ns('args') and n.ns('args')[0] is not None:
+            # a std::function object that was given a closure on this path (`m_task = [..]{..}; … m_task();`): the call runs that closure
+            a0 = n.ns('args')[0]
+            loc = ex.loc_of(a0, st, fr) if a0.k in ('ref', 'member') else None
+            held = ex.read(loc, st, a0) if loc is not None else None
+            if isinstance(held, Closure) and held.fn is not None:
+                return [(held, [ex._value(a, st, fr) for a in n.ns('args')[1:] if a is not None])]
         if q.startswith('std::condition_variable::wait'):
             out = []
             for a in n.ns('args'):
